@@ -1286,8 +1286,9 @@ def supports_template(d, gen_id):
     else:
         w(f"        ensures match verdict({sw}, {ew}, *__body) {{ Ok(_) => r is Ok, Err(e) => r == Err::<(), Error>(e) }},")
         w("    //@body")
-        w(f"    //@ replace R16 @0: ShapeSet::new(vec![$$]) ==> ShapeSet::new({{ let __v: Vec<Shape> = vec![$1]; proof {{ axiom_vec_yield(__v); assert(__v@ =~= {sw}); }} __v }})")
-        w(f"    //@ replace R16 @1: ShapeSet::new(vec![$$]) ==> ShapeSet::new({{ let __v: Vec<Shape> = vec![$1]; proof {{ axiom_vec_yield(__v); assert(__v@ =~= {ew}); }} __v }})")
+        # anchored on the binding each set is given, not on the order of the two declarations
+        w(f"    //@ replace R16: let struct_check = $$ ShapeSet::new(vec![$$]) ==> let struct_check = $1 ShapeSet::new({{ let __v: Vec<Shape> = vec![$2]; proof {{ axiom_vec_yield(__v); assert(__v@ =~= {sw}); }} __v }})")
+        w(f"    //@ replace R16: let enum_check = $$ ShapeSet::new(vec![$$]) ==> let enum_check = $1 ShapeSet::new({{ let __v: Vec<Shape> = vec![$2]; proof {{ axiom_vec_yield(__v); assert(__v@ =~= {ew}); }} __v }})")
         w(f"    //@ replace R10: match *__body {{ ==> proof {{ lemma_set_of(struct_check, {sw}); lemma_set_of(enum_check, {ew}); lemma_empty_iff({sw}); lemma_empty_iff({ew}); }} match *__body {{")
         w("    //@ replace R6n: for variant in &data.variants ==> for variant in __it: data.variants.as_slice()")
         # the scaffold follows the shape of the emitted loop (the postcondition above does not): the accumulator is found by what it is,
